@@ -253,6 +253,8 @@ def check(case):
             return adversarial(w, i, op, history)
         elif k == "fin":
             return departed(w, i, op, history)
+        elif k == "finku":
+            return close_with_ku(w, i, op, history)
         else:
             raise HarnessError(op)
     # ---------------------------------------------------------- quiescence --
@@ -405,6 +407,53 @@ def departed(w, i, op, history):
     if peer.session is not None and not peer.session.resumable:
         return bad("orderly-close-kills-resumability", hist, labels=w.labels)
     return good(nt=n > 0, labels=sorted(set(w.labels)))
+
+
+def close_with_ku(w, i, op, history):
+    """``side`` closes with closeSocket=False (it waits for the peer's
+    close_notify) while a KeyUpdate and data of the peer are still unread:
+    the close path must follow the peer's new keys, and both ends finish an
+    orderly shutdown. (The data in flight is dropped by close(): allowed.)"""
+    _, side = op
+    p = w.p
+    conn, peer = p.conn(side), p.conn(other(side))
+    for sd in "cs":
+        got, last = drain(w, sd)
+        r = fifo_check(w, sd, got, "drain")
+        if r:
+            return r
+        if last is not None and last.state == "exc":
+            return bad("drain-fails:%s" % describe_exc(last.exc),
+                       "history %r" % (history[:i + 1],), labels=w.labels)
+    conn.closeSocket = False
+    peer.closeSocket = False
+    if w.v == (3, 4):
+        drive({other(side): peer.send_keyupdate_request(0)}, p.link,
+              on_stall="leave")
+    sc.do_write(p, other(side), b"in flight")
+    gen = conn.closeAsync()
+    outs, _ = drive({side: gen}, p.link, on_stall="leave")
+    first = outs[side]
+    o_p = sc.do_read(p, other(side), 100, 1)
+    if first.state == "blocked":
+        outs, _ = drive({side: gen}, p.link, on_stall="leave")
+        first = outs[side]
+    hist = "history %r" % (history[:i + 1],)
+    w.labels.append("finku")
+    if first.state == "exc":
+        return bad("close-fails-with-peer-control-traffic-unread:%s" %
+                   describe_exc(first.exc), hist, labels=w.labels)
+    if o_p.state == "exc":
+        return bad("peer-read-fails-at-close:%s" % describe_exc(o_p.exc),
+                   hist, labels=w.labels)
+    if first.state == "done" and not (conn.closed and peer.closed):
+        return bad("close-with-control-traffic-not-closed", hist,
+                   labels=w.labels)
+    for c in (conn, peer):
+        if c.session is not None and not c.session.resumable:
+            return bad("orderly-close-kills-resumability", hist,
+                       labels=w.labels)
+    return good(nt=w.v == (3, 4), labels=sorted(set(w.labels)))
 
 
 ADV = {
@@ -616,6 +665,10 @@ def explicit(tier, seed):
     for v in ("tls13", "tls12"):
         for side in "cs":
             yield {"v": v, "ops": [["w", "c", 3], ["fin", side, 300]]}
+            yield {"v": v, "ops": [["w", "c", 3], ["finku", side]]}
+            yield {"v": v, "resumed": True,
+                   "ops": [["ku", side, True], ["w", "s", 9],
+                           ["finku", side]]}
     # the zero-byte pump with data right behind the control message
     for v in ("tls13", "tls12"):
         yield {"v": v, "ops": [["ku", "c", False], ["w", "c", 50],
